@@ -51,6 +51,10 @@ def cases(tier, rng):
             elif c == "start": ops.append("(start)"); st += 1; held += 1
             elif c in ("stop", "read", "start-query"): ops.append("(%s)" % c)
         out.append(("(timer %s)" % " ".join(ops), "timer"))
+    # very many queries between the start of a timer and its time-out: a query number kept in too few bits comes round again
+    for nq in ([255, 256, 16383, 16384, 16385, 65535, 65536] if tier == "quick" else [255, 256, 257, 1023, 1024, 16383, 16384, 16385, 32768, 65535, 65536, 65537, 131072]):
+        for pre in (["(start)"], ["(start)", "(cancel)"], ["(start)", "(start)"], ["(start-query)", "(start)"]):
+            out.append(("(timer %s)" % " ".join(pre + ["(start-query)"] * nq + ["(read)", "(fire 0)", "(read)", "(start)", "(fire 0)", "(read)"]), "timer"))
     m = 400 if tier == "quick" else 8000
     g = progs.Gen(rng)
     for _ in range(m):
@@ -74,7 +78,7 @@ def cases(tier, rng):
 
 RULE = ("five fixed programs (conjunction of multi-answer calls, not, recursive graph / list predicates, print) with the stop "
         "flag raised at the n-th read for EVERY n below 40 (thorough: 120) and never, through solve_all and through repeated "
-        "solve; random programs with a random flip point; long searches (40-clause predicates, a 30-link chain, up to 60 answers) with the flag raised at read 40 ... 5000. Oracle against the reference search of the query: solve_all's list "
+        "solve; timer histories with 255 ... 65536 query starts between the start of a timer and its time-out; random programs with a random flip point; long searches (40-clause predicates, a 30-link chain, up to 60 answers) with the flag raised at read 40 ... 5000. Oracle against the reference search of the query: solve_all's list "
         "without a trailing timeout message is exactly the reference answers; with the message, the texts before it are a "
         "prefix of the reference answers; without a pending flip there is never a message; each solve reports the next "
         "reference answer, `No more.` or the message, and after the message only the message or `No more.`... is not "
@@ -114,6 +118,10 @@ def timer_relations(case, ires):
 def relations(cases, impl, model):
     REL_STATS.clear(); REL_STATS.update(solve_all_checked=0, solve_checked=0, reference_outside_or_unfinished=0, timer_histories_checked=0)
     for (case, tag), (iout, ires) in zip(cases, impl):
+        if tag == "timer" and ires in ("panic", "diverged"):
+            yield dict(case=case[:300] + (" ..." if len(case) > 300 else ""), tag=tag, why="an operation of the stop-flag protocol (start / start-query / fire / cancel / stop / read) %s" % ("panicked" if ires == "panic" else "did not return"),
+                       implementation=dict(result=ires), cases=[case])
+            continue
         if tag == "timer" and ires.startswith("(tobs"):
             REL_STATS["timer_histories_checked"] += 1
             why = timer_relations(case, ires)
